@@ -6,6 +6,7 @@ import os, random, glob, subprocess, shutil
 from concurrent.futures import ThreadPoolExecutor
 from .. import build, core, rdh, arc, cli, streams
 from . import c15
+from ..lhamodel import header as H
 
 LEVEL = 'exploration'
 _EXE = None
@@ -215,6 +216,58 @@ def cli_part(ctx, exe, items):
     shutil.rmtree(root, ignore_errors=True)
 
 
+def huge_part(ctx, exe):
+    """Members whose stored data is really 2 GiB and more (a hole in a sparse file on the scratch tmpfs, so it costs nothing):
+    a skip of that width through a seek (file by name, redirected stdin) and through read-and-discard (pipe) must find the
+    same members behind it.  Listing only: nothing is decoded."""
+    root = os.path.join(build.scratch_root(), 'c16huge')
+    os.makedirs(root, exist_ok=True)
+    sizes = [(1 << 31) + 16] if ctx.tier == 'quick' else [(1 << 31) - 1, 1 << 31, (1 << 31) + 16, 3 << 30, (1 << 32) - 1]
+    e = {'PATH': '/usr/bin:/bin', 'TZ': 'UTC', 'TEST_NOW_TIME': '1700000000'}
+    for k, size in enumerate(sizes):
+        lvl = (1, 2)[k % 2]
+        m = H.simple_member(b'big.bin', b'', level=lvl, method=b'-lh0-', size=size, crc=0)
+        m['data'] = b''
+        extra = len(H.build_header(m)[0]) - 2 - H.build_header(m)[0][0] if lvl == 1 else 0     # level 1: the field also counts the extended headers
+        if size + extra >= 1 << 32:
+            size = (1 << 32) - 1 - extra
+            m['size'] = size
+        m['packed_field'] = size + extra
+        hdr = H.build_header(m)[0]
+        tail = H.build(H.simple_member(b'after.txt', b'the member behind the big one', level=2)) + b'\0'
+        p = os.path.join(root, 'huge%d.lzh' % k)
+        with open(p, 'wb') as f:
+            f.write(bytes(hdr))
+            f.seek(size, 1)
+            f.write(tail)
+        outs = {}
+        r = subprocess.run([exe, 'l', p], capture_output=True, cwd=root, env=e, timeout=900)
+        outs['file'] = (r.returncode, r.stdout)
+        with open(p, 'rb') as f:
+            r = subprocess.run([exe, 'l', '-'], stdin=f, capture_output=True, cwd=root, env=e, timeout=900)
+        outs['redirect'] = (r.returncode, r.stdout)
+        cat = subprocess.Popen(['cat', p], stdout=subprocess.PIPE)
+        r = subprocess.run([exe, 'l', '-'], stdin=cat.stdout, capture_output=True, cwd=root, env=e, timeout=900)
+        cat.stdout.close()
+        cat.wait()
+        outs['pipe'] = (r.returncode, r.stdout)
+        os.unlink(p)
+
+        def names(o):
+            return [l.split()[-1] for l in o[1].split(b'\n') if l.endswith((b'big.bin', b'after.txt'))]
+        ctx.count('huge_member_listings', 3)
+        ctx.cov['evaluations'] += 3
+        ctx.hist('huge_member_sizes', str(size))
+        if names(outs['pipe']) != [b'big.bin', b'after.txt']:
+            raise core.HarnessFailure('huge-member archive (level %d, %d bytes) is not listed as two members through a pipe: %r' % (lvl, size, outs['pipe']))
+        for kind in ('file', 'redirect'):
+            if names(outs[kind]) != names(outs['pipe']) or outs[kind][0] != outs['pipe'][0]:
+                ctx.violation('C16-cli-list-differs:huge-member:' + kind, "a stored member of %d bytes followed by another: 'lha l' lists %s (exit %d) from the %s "
+                              'and %s (exit %d) through a pipe' % (size, names(outs[kind]), outs[kind][0], kind, names(outs['pipe']), outs['pipe'][0]),
+                              bytes(hdr) + b'<%d bytes>' % size + tail)
+    shutil.rmtree(root, ignore_errors=True)
+
+
 def run(ctx):
     global _EXE
     b = build.Builder()
@@ -286,6 +339,7 @@ def run(ctx):
     nsh = 16
     core.run_shards(ctx, shard, [(ctx.seed * 71 + i, items[i::nsh], ctx.tier) for i in range(nsh)])
     cli_part(ctx, exe_cli, (base[:60] + skipsz) if ctx.tier == 'quick' else base)
+    huge_part(ctx, exe_cli)
     ctx.cov['skip_size_archives'] = len(skipsz)
     ctx.cov['prefix_variants'] = len(prefs)
     ctx.cov['archives'] = len(base)
